@@ -1,14 +1,15 @@
 SPECIFICATION Spec
 CONSTANTS
   MaxCmd = 2
-  MaxEv = 1
+  MaxEv = 0
   MaxLop = 1
   MaxPost = 2
-  MaxDisc = 2
+  MaxDisc = 1
   ReplyShapes <- RS_two
   EventShapes <- ES_small
   EvNames <- N1
   Listeners <- L2
+  SubmitKinds <- K3
   Loose = FALSE
   Dev <- NoDev
 INVARIANT TypeOK
